@@ -139,7 +139,10 @@ def optimal(
             count_item_in_bin = int(counts[iitem][ibin].x)
             for _ in range(count_item_in_bin):
                 binner.add_item_to_bin(output, items[iitem], ibin)
-    binner.sort_by_ascending_sum(output)
+    if len(set(weights)) <= 1:
+        binner.sort_by_ascending_sum(output)
+    # With different weights, bin i must remain the bin whose sum was divided by weights[i]
+    # (the model already orders the bins by ascending weighted sum).
     return output
 
 
